@@ -586,7 +586,8 @@ long long c_slope(long long nrows,
 
     for(i=0; i<ntot; i++)
     {
-        if(i%nprint == 0)
+        /* No progress log if nprint <= 0 (i%0 is a division by zero) */
+        if(nprint > 0 && i%nprint == 0)
             fprintf(stdout, "\t\tCompleted slope calculation ... %0.1f%%\n",
                 100*(double)(i)/(double)(ntot));
 
